@@ -549,12 +549,14 @@ func runScenario(r *hx.Run, sc *scenario) {
 	checkE2EWellformed(r, sc, idx, digests, witness)
 	opIndexFromStore(r, idx, digests)
 	opFlat(r, sc.layers, flat)
-	opE2EModel(r, sc, idx, fl, digests, flat)
+	// inside the hypothesis Tame of index_eq_flatten_partial (evaluated on the abstraction of this
+	// history) nothing is excused
+	strict := opE2EModel(r, sc, idx, fl, digests, flat)
 	if len(extra) == 0 && len(missing) == 0 {
-		if sc.Tame {
-			r.Count("e2e:tame:equal")
+		if strict {
+			r.Count("e2e:Tame:equal")
 		} else {
-			r.Count("e2e:wild:equal")
+			r.Count("e2e:not-Tame:equal")
 		}
 		return
 	}
@@ -675,10 +677,10 @@ func runScenario(r *hx.Run, sc *scenario) {
 			unexplained = append(unexplained, "in the final image but not reported: "+t)
 		}
 	}
-	if sc.Tame {
+	if strict {
 		// nothing is excused inside the hypothesis of the theorem
 		for c, t := range classes {
-			unexplained = append(unexplained, "tame history shows "+c+": "+t)
+			unexplained = append(unexplained, "history inside the hypothesis Tame shows "+c+": "+t)
 		}
 		classes = map[string]string{}
 	}
@@ -867,7 +869,7 @@ func runE2E(r *hx.Run, cfg hx.Config, rnd *hx.Rand) {
 	for _, k := range names {
 		runScenario(r, ws[k])
 	}
-	n := cfg.N(500, 6000)
+	n := cfg.N(500, 20000)
 	for i := 0; i < n && !r.Stop(); i++ {
 		tame := i%3 != 2
 		sc := genScenario(rnd.Fork(), tame, 8)
